@@ -11,10 +11,12 @@ SPECS = {
     ('_util.py', '_check_n_components'): dict(lean='checkNComponents', params=[('n_features', 'int'), ('n_components', 'optint')], ret='Int', generic=False),
     ('_util.py', '_auto_select_init'): dict(lean='autoSelectInit', params=[('has_classes', 'bool'), ('n_features', 'int'), ('n_samples', 'int'), ('n_components', 'int'), ('n_classes', 'int')], ret='String', generic=False),
     ('_util.py', 'check_tuple_size'): dict(lean='checkTupleSize', params=[('tuples', 'array'), ('tuple_size', 'optint'), ('context', 'skip')], ret='Unit', generic=False),
+    ('_util.py', '_check_sdp_from_eigen'): dict(lean='checkSdpFromEigenGen', params=[('w', 'karray'), ('tol', 'optk')], ret='Bool', generic=True,
+                                                 extra='(eps : K)'),
     ('base_metric.py', '_validate_calibration_params'): dict(lean='validateCalibrationParams', params=[('strategy', 'str'), ('min_rate', 'pynum'), ('beta', 'pynum')], ret='Unit', generic=True, cls='_PairsClassifierMixin'),
 }
 
-LEAN_TY = {'int': 'Int', 'optint': 'Option Int', 'bool': 'Bool', 'str': 'String', 'pynum': 'PyNum K'}
+LEAN_TY = {'int': 'Int', 'optint': 'Option Int', 'bool': 'Bool', 'str': 'String', 'pynum': 'PyNum K', 'karray': 'List K', 'optk': 'Option K', 'k': 'K'}
 
 
 class Tr:
@@ -42,14 +44,61 @@ class Tr:
                 return 'none'
         if isinstance(e, ast.Call) and ast.unparse(e.func) == 'min':
             return 'int'
+        if self.is_k(e):
+            return 'k'
         if isinstance(e, ast.BinOp):
             return 'int'
         if isinstance(e, ast.Subscript):
             return 'int'
         self.bad(e, 'untyped expression')
 
+    def is_k(self, e):
+        """does the expression live in the scalar field K (eigenvalue arrays, tolerances)?"""
+        if isinstance(e, ast.Name):
+            return self.env.get(e.id) in ('k', 'optk')
+        if isinstance(e, ast.UnaryOp) and isinstance(e.op, ast.USub):
+            return self.is_k(e.operand)
+        if isinstance(e, ast.BinOp):
+            return self.is_k(e.left) or self.is_k(e.right)
+        if isinstance(e, (ast.Call, ast.Attribute)):
+            f = ast.unparse(e)
+            return any(f == pat.format(a=a) for a in self.arrays() for pat in ('np.abs({a}).max()', 'np.finfo({a}.dtype).eps'))
+        return False
+
+    def arrays(self):
+        return [n for n, t in self.env.items() if t == 'karray']
+
+    def knum(self, e):
+        """numeric expression in K"""
+        if isinstance(e, ast.Name):
+            t = self.env.get(e.id)
+            if t == 'k':
+                return e.id
+            if t == 'optk':
+                return f'({e.id}.getD 0)'
+            self.bad(e, 'not a scalar of the field')
+        if isinstance(e, ast.Constant) and isinstance(e.value, int) and not isinstance(e.value, bool) and e.value >= 0:
+            return f'(Scalar.ofNat {e.value} : K)'
+        if isinstance(e, ast.UnaryOp) and isinstance(e.op, ast.USub):
+            return f'(-{self.knum(e.operand)})'
+        if isinstance(e, ast.BinOp) and isinstance(e.op, (ast.Add, ast.Sub, ast.Mult)):
+            op = {ast.Add: '+', ast.Sub: '-', ast.Mult: '*'}[type(e.op)]
+            return f'({self.knum(e.left)} {op} {self.knum(e.right)})'
+        if isinstance(e, (ast.Call, ast.Attribute)):
+            f = ast.unparse(e)
+            for a in self.arrays():
+                if f == f'np.abs({a}).max()':
+                    return f'(listMaxAbs {a})'
+                if f == f'np.finfo({a}.dtype).eps':
+                    return 'eps'
+                if f == f'len({a})':
+                    return f'(Scalar.ofNat {a}.length : K)'
+        self.bad(e, 'unsupported expression of the scalar field')
+
     def num(self, e, want):
         """numeric expression in the integer or the pynum(K) world"""
+        if want == 'k':
+            return self.knum(e)
         t = self.ty(e)
         if t == 'intlit':
             return f'({e.value} : Int)' if want == 'int' else f'(Scalar.ofNat {e.value} : K)'
@@ -75,6 +124,8 @@ class Tr:
         self.bad(e, 'unsupported numeric expression')
 
     def world(self, *es):
+        if any(self.is_k(x) for x in es):
+            return 'k'
         return 'pynum' if any(isinstance(x, ast.Name) and self.env.get(x.id) == 'pynum' for x in es) else 'int'
 
     def prop(self, e):
@@ -87,6 +138,18 @@ class Tr:
             if self.env.get(e.id) == 'bool':
                 return f'({e.id} = true)'
             self.bad(e, 'truthiness of a non-boolean')
+        if isinstance(e, ast.Call) and ast.unparse(e.func) == 'any' and len(e.args) == 1 and isinstance(e.args[0], ast.Compare) \
+                and len(e.args[0].ops) == 1:
+            # any(<array expr> < <scalar>): element-wise comparison of an eigenvalue array with a scalar
+            c = e.args[0]
+            sym = {ast.Lt: '<', ast.LtE: '≤', ast.Gt: '>', ast.GtE: '≥'}.get(type(c.ops[0]))
+            lhs = ast.unparse(c.left)
+            for a in self.arrays():
+                if sym and lhs == a:
+                    return f'(({a}.any fun x => decide (x {sym} {self.knum(c.comparators[0])})) = true)'
+                if sym and lhs == f'abs({a})':
+                    return f'(({a}.any fun x => decide (sabs x {sym} {self.knum(c.comparators[0])})) = true)'
+            self.bad(e, 'unsupported any(...)')
         if isinstance(e, ast.Call) and ast.unparse(e.func) == 'isinstance':
             x, tys = e.args
             if isinstance(x, ast.Name) and self.env.get(x.id) == 'pynum' and ast.unparse(tys) in ('(int, float)', '(float, int)'):
@@ -108,6 +171,8 @@ class Tr:
             t = self.env.get(l.id)
             if t == 'optint':
                 p = f'{l.id} = none'
+            elif t == 'optk':
+                p = f'{l.id}.isNone = true'
             elif t == 'pynum':
                 p = f'{l.id}.isNone = true'
             else:
@@ -134,6 +199,8 @@ class Tr:
         return f'{self.num(l, w)} {sym} {self.num(r, w)}'
 
     def value(self, e, ret):
+        if ret == 'Bool' and isinstance(e, ast.Constant) and isinstance(e.value, bool):
+            return 'true' if e.value else 'false'
         if ret == 'Int':
             return self.num(e, 'int')
         if ret == 'String':
@@ -166,6 +233,10 @@ class Tr:
                 return f'{pad}let {nm} : String := "{s.value.value}"\n' + self.block(rest, ret, ind)
             if isinstance(s.value, ast.JoinedStr) or (isinstance(s.value, ast.Call) and ast.unparse(s.value.func).endswith('.format')):
                 return self.block(rest, ret, ind)   # message formatting
+            if self.is_k(s.value):
+                rhs = self.knum(s.value)
+                self.env[nm] = 'k'
+                return f'{pad}let {nm} : K := {rhs}\n' + self.block(rest, ret, ind)
             self.env[nm] = 'int'
             return f'{pad}let {nm} : Int := {self.num(s.value, "int")}\n' + self.block(rest, ret, ind)
         if isinstance(s, ast.If):
@@ -194,7 +265,7 @@ def find_function(ix, file, name, cls=None):
 def emit(ix, failed=None, old_text=''):
     import re
     failed = {} if failed is None else failed
-    out = ['import MLModel.Calibrate', '/-! GENERATED by /verif/translate/translate.py from /repo/metric_learn — do not edit. -/',
+    out = ['import MLModel.Calibrate', 'import MLModel.PSD', '/-! GENERATED by /verif/translate/translate.py from /repo/metric_learn — do not edit. -/',
            'namespace MLGen', 'open ML', '']
     for (file, name), spec in SPECS.items():
         try:
@@ -231,8 +302,10 @@ def emit_one(ix, file, name, spec, out):
                 continue
             if t == 'array':
                 continue
+            if t == 'karray':
+                pass
             params.append(f'({p} : {LEAN_TY[t]})')
-        params = [f'({sp} : Int)' for sp in tr.shape_params] + params
+        params = [f'({sp} : Int)' for sp in tr.shape_params] + params + ([spec['extra']] if spec.get('extra') else [])
         gen = '{K : Type} [Scalar K] ' if spec['generic'] else ''
         out.append(f'/-- {file}: `{name}` (line {fn.lineno}) -/')
         out.append(f'def {spec["lean"]} {gen}{" ".join(params)} : Except String {spec["ret"]} :=')
